@@ -52,7 +52,7 @@ CLAIMS = {
    note="Assumed: CoinbaseLockupKey is a function of its arguments (trusted), ethdb.Batch ghost contract (C17). Not under contract: RedeemLockedQuai / AddNewLock loops, the reward split among work shares, lockup-contract execution.",
    design="4 (C13)", technique="contract-based deductive verification with ghost pending-view state, VCs from go/ssa, z3/cvc5"),
  "C15": dict(
-   text="(b) Memory metering: every memory-size function of the EVM jump table (memorySha3 ... memoryLog, memoryMcopy, memoryCall/DelegateCall/StaticCall, memoryCreate/2) returns exactly offset+length of the documented stack operands or reports overflow (functional postconditions for all 256-bit operands); calcMemSize64(WithUint) likewise; memoryGasCost charges C(w)-lastGasCost with C(w)=3w+w*w/512 and refuses sizes above 0x1FFFFFFFE0 (nonlinear 64-bit arithmetic, no overflow); Memory.Resize grows to max(len,size). (a) No-panic: parseScriptPush and the four Extract...FromCoinbase parsers are panic-free for every byte string (all index/slice/nil obligations discharged) and a successful push stays inside its script.",
+   text="(b) Memory metering: every memory-size function of the EVM jump table (memorySha3 ... memoryLog, memoryMcopy, memoryCall/DelegateCall/StaticCall, memoryCreate/2) returns exactly offset+length of the documented stack operands or reports overflow (functional postconditions for all 256-bit operands); calcMemSize64(WithUint) likewise; memoryGasCost charges C(w)-lastGasCost with C(w)=3w+w*w/512 and refuses sizes above 0x1FFFFFFFE0 (nonlinear 64-bit arithmetic, no overflow); Memory.Resize grows to max(len,size). (a) No-panic: parseScriptPush, the four Extract...FromCoinbase parsers and 25 wire decoders of core/types (ProtoDecode of OutPoint, TxIn(s), TxOut(s), UtxoEntry, SpentUtxoEntry, Termini, BlockManifest, Bloom, AccessList, Transactions, Header, WorkObjectHeader, WorkObjectBody, AuxPow, AuxTemplate, PendingEtxs(Rollup), PendingHeader, TokenChoiceSet, Betas, LogForStorage, PowShareDiffAndCount) are panic-free for every input object (every index, slice bound, nil dereference and division in the bodies and their inlined helpers is a discharged obligation), and a header decoded after the KawPow fork carries complete share records (defect found by this clause and repaired: fixed 743d7036).",
    note="Not under contract: the jump-table invariant (every op with memorySize has a dynamicGas that charges it) - known defect: ETX has memoryETX but no dynamicGas (DESIGN 4.0); protobuf/rlp decoders, p2p validators, hexutil; allocation inside libraries; time. Assumed: uint256/binary library models.",
    design="4 (C15)", technique="contract-based deductive verification: functional postconditions and implicit safety obligations, VCs from go/ssa, z3/cvc5 (nonlinear mode for the fee)"),
  "C20": dict(
